@@ -1263,11 +1263,19 @@ fn process_file_content(
     // Convert to string
     let content = String::from_utf8_lossy(&content_bytes);
     let lines: Vec<&str> = content.lines().collect();
+    // Byte offset of the start of every line: `start`/`end` of a hunk are offsets into the file
+    let mut line_starts = Vec::with_capacity(lines.len());
+    let mut offset = 0;
+    for raw_line in content.split_inclusive('\n') {
+        line_starts.push(offset);
+        offset += raw_line.len();
+    }
     let relative_path = path.strip_prefix(root).unwrap_or(path);
     let mut has_matches = false;
 
     // Find matches
     for (line_num, line) in lines.iter().enumerate() {
+        let line_start = line_starts.get(line_num).copied().unwrap_or(0);
         // Skip excluded lines
         if let Some(regex) = exclude_lines_regex {
             if regex.is_match(line) {
@@ -1312,8 +1320,8 @@ fn process_file_content(
                     variant: pattern.to_string(),
                     content: matched_text.to_string(),
                     replace: replacement_text,
-                    start,
-                    end,
+                    start: line_start + start,
+                    end: line_start + end,
                     line_before: Some((*line).to_string()),
                     line_after: Some(line_after),
                     coercion_applied: None,
@@ -1345,8 +1353,8 @@ fn process_file_content(
                     variant: pattern.to_string(),
                     content: pattern.to_string(),
                     replace: replacement.to_string(),
-                    start,
-                    end,
+                    start: line_start + start,
+                    end: line_start + end,
                     line_before: Some((*line).to_string()),
                     line_after: Some(line_after),
                     coercion_applied: None,
